@@ -13,7 +13,7 @@ KINDS = (["oct:8", "oct:128", "oct:256", "oct:1024", "RSA:2048", "RSA:1024"] + [
          + ["OKP:" + c for c in gen.OKP_CURVES])
 REPS = ["jwk-private", "jwk-public", "pem-private", "pem-public", "der-private", "der-public", "pem-encrypted", "generated"]
 EXTRAS = [None, {"use": "sig"}, {"use": "enc"}, {"key_ops": ["sign", "verify"]}, {"alg": "X1", "kid": "explicit-kid"},
-          {"kid": "k1", "x5t": "abc"}, {"use": "enc", "key_ops": ["deriveKey"], "kid": "é"}]
+          {"kid": "k1", "x5t": "abc"}, {"use": "enc", "key_ops": ["deriveKey"], "kid": "é"}, {"kid": ""}, {"kid": "0"}]
 
 _RSA_SMALL = {}
 
